@@ -8,21 +8,37 @@ Table == JsonDeserialize(IOEnv.CONV_FILE)
 MCNV == Table.nv
 MCConv(kind, v) == Table.conv[kind][v]
 MCKinds == {"str", "int", "float", "bool", "uuid", "datetime", "date", "json", "list", "list_int", "has"}
+(* exhaustive two-call histories (MC_ParamGettersH.cfg): fewer kinds, the first three pool values *)
+HKinds == {"str", "int", "list", "list_int", "has"}
 MCBounds(kind) == IF kind = "int" THEN {0, 10} ELSE {0, 7000}      \* floats are in thousandths: 0.0 / 7.0
 
-XGetParam    == GetPlain("str") /\ call = NoCall
-XGetInt      == GetBounded("int") /\ call = NoCall
-XGetFloat    == GetBounded("float") /\ call = NoCall
-XGetBool     == GetBool /\ call = NoCall
-XGetUuid     == GetPlain("uuid") /\ call = NoCall
-XGetDatetime == GetPlain("datetime") /\ call = NoCall
-XGetDate     == GetPlain("date") /\ call = NoCall
-XGetJson     == GetPlain("json") /\ call = NoCall
-XGetList     == GetPlain("list") /\ call = NoCall
-XGetListInt  == GetPlain("list_int") /\ call = NoCall
-XHasParam    == HasParam /\ call = NoCall
+VARIABLE h                     \* history of <<call, outcome>> (simulation instance only)
+CONSTANT MaxCalls
+Keep == UNCHANGED h
+Log  == h' = Append(h, [call |-> call', last |-> last'])
+XInit == Init /\ h = <<>>
+XGetParam    == GetPlain("str") /\ ncalls < MaxCalls /\ Keep
+XGetInt      == GetBounded("int") /\ ncalls < MaxCalls /\ Keep
+XGetFloat    == GetBounded("float") /\ ncalls < MaxCalls /\ Keep
+XGetBool     == GetBool /\ ncalls < MaxCalls /\ Keep
+XGetUuid     == GetPlain("uuid") /\ ncalls < MaxCalls /\ Keep
+XGetDatetime == GetPlain("datetime") /\ ncalls < MaxCalls /\ Keep
+XGetDate     == GetPlain("date") /\ ncalls < MaxCalls /\ Keep
+XGetJson     == GetPlain("json") /\ ncalls < MaxCalls /\ Keep
+XGetList     == GetPlain("list") /\ ncalls < MaxCalls /\ Keep
+XGetListInt  == GetPlain("list_int") /\ ncalls < MaxCalls /\ Keep
+XHasParam    == HasParam /\ ncalls < MaxCalls /\ Keep
 XNext == XGetParam \/ XGetInt \/ XGetFloat \/ XGetBool \/ XGetUuid \/ XGetDatetime \/ XGetDate \/ XGetJson
          \/ XGetList \/ XGetListInt \/ XHasParam
+
+(* history instance: the same actions, logged; one JSON behaviour per finished history *)
+AnyGet == \/ \E k \in Kinds \ (BoundedKinds \cup {"bool", "has"}) : GetPlain(k)
+          \/ HasParam \/ GetBool \/ GetBounded("int") \/ GetBounded("float")
+HNext == ncalls < MaxCalls /\ AnyGet /\ Log
+EmitHistory == (Len(h) = MaxCalls) =>
+    PrintT(ToJson([present |-> present, zero |-> zero, vals |-> vals, ev |-> h]))
+MCReadOnly == [][UNCHANGED <<present, vals, zero>>]_<<vars, h>>
+MCStoreUntouched == [][(store' # store) => (last'.res = "value" /\ call'.store)]_<<vars, h>>
 
 Emit == Made => PrintT(ToJson([present |-> present, zero |-> zero, vals |-> vals, call |-> call, last |-> last]))
 
